@@ -15,7 +15,10 @@ Three layers:
 -/
 import KinModel.Gen.ReasonSites
 import KinModel.Gen.VisitSites
+import KinModel.Gen.SettingsFlow
+import KinModel.Gen.ErrorRender
 import KinModel.Schema.Events
+import KinModel.C19Message
 namespace KinModel.Schema
 
 /-! ### (T) obligations over the regenerated table -/
@@ -356,6 +359,158 @@ theorem visit_sites_are_the_exercised_ones :
     Gen.visitSites.map (fun r => (r.fn, r.via)) =
       [("ValidateParameter", ""), ("ValidateRequestBody", ""), ("ValidateResponse", ""), ("validateResponseHeader", "ValidateResponse")] := by
   decide
+
+/-! ### the settings (and with them the customizer) reach every error site of the visitor — table Gen/SettingsFlow
+
+Inside openapi3 the customizer lives in `*schemaValidationSettings`. An error gets it only if (1) the literal that builds
+the error copies `settings.customizeMessageError`, and (2) the `settings` in scope are the caller's: every call from one
+visitor function to another hands the parameter on unchanged, none goes through an exported wrapper (`VisitJSONArray`, …,
+which build FRESH default settings), and the parameter is never reassigned. -/
+
+/-- the rule could read every site -/
+theorem settings_flow_readable :
+    Gen.settingsFlow.all (fun r => ["passes", "fresh", "reassigned", "carries", "empty", "missing", "no-settings"].contains r.status) = true := by
+  decide
+
+/-- (2) every call between visitor functions passes the caller's settings on; no call builds fresh ones; no reassignment -/
+theorem settings_reach_every_visit :
+    (Gen.settingsFlow.filter (fun r => r.kind != "lit")).all (fun r => r.kind == "call" && r.status == "passes") = true := by
+  decide
+
+/-- (1) every SchemaError literal of a visitor function carries the customizer of the settings (the field-less
+`&SchemaError{}` is the target of an `errors.As`, not an error) -/
+theorem every_error_carries_customizer :
+    (Gen.settingsFlow.filter (fun r => r.kind == "lit" && r.status != "no-settings")).all
+      (fun r => r.status == "carries" || r.status == "empty") = true := by decide
+
+/-- the literals built without settings in scope are the format validator's and the pattern compiler's: the visitor
+wraps both into an error of its own (`format`, `pattern`) that carries the customizer -/
+theorem errors_without_settings_are_wrapped_ones :
+    (Gen.settingsFlow.filter (fun r => r.status == "no-settings")).map (fun r => r.fn) =
+      ["NewIPValidator", "NewIPValidator", "NewIPValidator", "compilePattern"] := by decide
+
+/-- the functions through which the settings travel are the visitor functions of the model -/
+theorem settings_holders_are_the_visitors :
+    ((Gen.settingsFlow.filter (fun r => r.status != "no-settings")).map (fun r => r.fn)).eraseDups =
+      ["visitJSON", "visitEnumOperation", "visitNotOperation", "visitXOFOperations", "visitJSONNull", "visitJSONBoolean",
+       "visitJSONNumber", "visitJSONString", "visitJSONArray", "visitJSONObject", "expectedType"] := by decide
+
+/-- the typed-slice and YAML-map branches of `visitJSON` (a Go value that is not `[]any` / `map[string]any`) continue
+with the internal functions like the plain ones: `visitJSON` calls `visitJSONArray` twice and `visitJSONObject` twice -/
+theorem typed_collections_continue_with_settings :
+    ((Gen.settingsFlow.filter (fun r => r.fn == "visitJSON" && r.callee == "visitJSONArray")).map (fun r => r.status),
+     (Gen.settingsFlow.filter (fun r => r.fn == "visitJSON" && r.callee == "visitJSONObject")).map (fun r => r.status)) =
+      (["passes", "passes"], ["passes", "passes"]) := by decide
+
+/-! ### the message of one error, assembled from its reason
+
+Full statement (does not hold): with a reason-only customizer attached, or with details disabled, no part of the message
+of a reported error comes from the value. The code deviates for an error whose reason is EMPTY: `Error()` ignores an
+empty customizer text and renders the default text, value dump included. -/
+
+/-! #### `errorMessage` against the code: table Gen/ErrorRender (every use of a field of the receiver in
+`(*SchemaError).Error()`, with the conditions of the enclosing `if`s) -/
+
+/-- the rule could read the whole method -/
+theorem error_render_readable : Gen.errorRender.all (fun r => r.field != "<unrecognised>") = true := by decide
+
+/-- the first statement is the customizer block: with a customizer attached its text is returned whenever it is not
+empty, before anything else is looked at (first branch of `errorMessage`) -/
+theorem customizer_text_returned_first :
+    Gen.errorRender.filter (fun r => r.after == "in-customizer") =
+      [⟨"customizeMessageError", [], "in-customizer"⟩,
+       ⟨"customizeMessageError", ["err.customizeMessageError != nil"], "in-customizer"⟩,
+       ⟨"<whole>", ["err.customizeMessageError != nil"], "in-customizer"⟩,
+       ⟨"<return>", ["err.customizeMessageError != nil", "msg := err.customizeMessageError(err); msg != \"\""], "in-customizer"⟩] := by
+  decide
+
+/-- the default text reads the rejected value (and the schema) only inside the `!SchemaErrorDetailsDisabled` block, and
+hands the error as a whole to nobody (last branch of `errorMessage`) -/
+theorem value_printed_only_with_details :
+    (Gen.errorRender.filter (fun r => r.after == "after-customizer")).all
+      (fun r => r.field != "<whole>" &&
+        (!(r.field == "Value" || r.field == "Schema") || r.guards.head? == some "!SchemaErrorDetailsDisabled")) = true := by
+  decide
+
+/-- the fields the default text is made of, in order, are the parts of `errorMessage` (path, [origin text — not modelled],
+reason, field name, schema dump, value dump) -/
+theorem error_render_fields_are_the_modelled_ones :
+    ((Gen.errorRender.filter (fun r => r.after == "after-customizer")).map (fun r => r.field)).eraseDups =
+      ["reversePath", "Origin", "Reason", "SchemaField", "Schema", "Value"] := by decide
+
+/-- `RequestError.Error()` and `ResponseError.Error()` (openapi3filter/errors.go), the texts wrapped around a schema error:
+the rule could read both methods, and both are in the table -/
+theorem filter_error_texts_readable :
+    (Gen.filterErrorRender.all (fun r => r.field != "<unrecognised>") &&
+      ((Gen.filterErrorRender.map (fun r => r.after)).eraseDups == ["RequestError", "ResponseError"])) = true := by decide
+
+/-- they print their own `Reason`, the text of the wrapped error and the declared parameter's name / location — never the
+`Input` (the request or response itself) and never the error as a whole -/
+theorem filter_error_texts_never_read_input :
+    Gen.filterErrorRender.all (fun r => ["Reason", "Err", "Parameter", "RequestBody"].contains r.field) = true := by decide
+
+/-- exclusion: the customizer's text would be empty -/
+def emptyReason (e : Err) : Bool := e.reason.isEmpty
+
+theorem message_from_reasons_value_free_partial (m : Mode) (env : Env) (s : S) (v : J) (configured detailsDisabled : Bool)
+    (fl : SiteFlow) (hfl : fl = SiteFlow.sound) (hcfg : configured = true ∨ detailsDisabled = true) :
+    ∀ e ∈ (validate m env s v).errs, (emptyReason e = false ∨ detailsDisabled = true) →
+      ∀ p ∈ errorMessage (fl.attached configured) detailsDisabled e, p.fromValue = false := by
+  intro e he hex p hp
+  have hr := reported_reasons_value_free m env s v e he
+  have hreason : ∀ q ∈ e.reason.map MsgPart.reason, q.fromValue = false := by
+    intro q hq
+    simp only [List.mem_map] at hq
+    obtain ⟨f, hf, rfl⟩ := hq
+    have := hr f hf
+    cases f <;> simp_all [MsgPart.fromValue, Frag.fromValue]
+  subst hfl
+  unfold errorMessage at hp
+  split at hp
+  · exact hreason p hp
+  · rename_i hna
+    simp only [List.mem_append] at hp
+    rcases hp with (hp | hp) | hp
+    · simp only [List.mem_map] at hp; obtain ⟨t, _, rfl⟩ := hp; rfl
+    · split at hp
+      · simp only [List.mem_singleton] at hp; subst hp; rfl
+      · exact hreason p hp
+    · cases hdd : detailsDisabled with
+      | true => simp [hdd] at hp
+      | false =>
+        -- details enabled: then a customizer is configured and the reason is not empty, so the first branch was taken
+        exfalso
+        have hc : configured = true := by rcases hcfg with h | h <;> simp_all
+        have hne : emptyReason e = false := by rcases hex with h | h <;> simp_all
+        simp [SiteFlow.attached, SiteFlow.sound, hc, emptyReason] at hna hne
+        simp [hne] at hna
+
+/-- the text of the whole report (`MultiError.Error()` joins the members' texts): same statement over the list -/
+theorem multi_message_from_reasons_value_free_partial (m : Mode) (env : Env) (s : S) (v : J) (configured detailsDisabled : Bool)
+    (hcfg : configured = true ∨ detailsDisabled = true)
+    (hex : ∀ e ∈ (validate m env s v).errs, emptyReason e = false ∨ detailsDisabled = true) :
+    ∀ p ∈ multiMessage (SiteFlow.sound.attached configured) detailsDisabled (validate m env s v).errs, p.fromValue = false := by
+  intro p hp
+  simp only [multiMessage, List.mem_flatMap] at hp
+  obtain ⟨e, he, hpe⟩ := hp
+  exact message_from_reasons_value_free_partial m env s v configured detailsDisabled SiteFlow.sound rfl hcfg e he (hex e he) p hpe
+
+/-- witness (inside the exclusion the message differs): an attached reason-only customizer that returns "" falls back to
+the default text with the value dump -/
+theorem message_empty_reason_witness :
+    (errorMessage true false { field := "x", value := some (.str "secret") }).any MsgPart.fromValue = true := by decide
+
+/-- why the table obligations matter: where the customizer is NOT attached (a literal without the field, or fresh settings
+on the way) the default text discloses the value although the reason is clean -/
+theorem message_without_customizer_discloses :
+    (errorMessage (({ carries := true, callerSettings := false } : SiteFlow).attached true) false
+      { field := "maxItems", value := some (.arr [.str "secret"]), reason := [.lit "maximum number of items is ", .schemaNat 0] }).any
+      MsgPart.fromValue = true := by decide
+
+/-- non-vacuity: a rejected value with a non-empty reason under a configured customizer -/
+example : (errorMessage (SiteFlow.sound.attached true) false
+    { field := "maxItems", value := some (.arr [.str "secret"]), reason := [.lit "maximum number of items is ", .schemaNat 0] }).any
+      MsgPart.fromValue = false := by decide
 
 /-- the invariant is not vacuous: a fragment that does come from the value is detected -/
 example : (Err.clean { field := "x", reason := [.lit "bad value ", .valueStr "secret"] }) = false := by decide
